@@ -3,6 +3,7 @@ package main
 import (
 	"fmt"
 	"math"
+	"os"
 
 	"gonum.org/v1/gonum/blas"
 	"gonum.org/v1/gonum/blas/blas64"
@@ -312,7 +313,7 @@ type slab struct {
 }
 
 func slabLen(r, c, ld int) int {
-	if r <= 0 || c <= 0 {
+	if r <= 0 || c < 0 {
 		return 0
 	}
 	return (r-1)*ld + c
@@ -443,7 +444,14 @@ type checker struct {
 	class string
 }
 
+// triage (environment C02_TRIAGE=1, never set by the driver) hides failures that
+// carry a known-finding class so that the rest can be inspected by hand.
+var triage = os.Getenv("C02_TRIAGE") != ""
+
 func (ck *checker) failf(format string, a ...any) {
+	if triage && ck.class != "" {
+		return
+	}
 	msg := fmt.Sprintf(format, a...)
 	if ck.ctx != "" {
 		msg = "[" + ck.ctx + "] " + msg
@@ -573,4 +581,18 @@ func lworkMenu(min, query, unit int, full bool) []int {
 		}
 	}
 	return uniq(min, f...)
+}
+
+// catch runs f and returns the message of a panic escaping it ("" if none).
+func catch(f func()) (msg string) {
+	defer func() {
+		if e := recover(); e != nil {
+			msg = fmt.Sprint(e)
+			if msg == "" {
+				msg = "panic"
+			}
+		}
+	}()
+	f()
+	return ""
 }
